@@ -279,7 +279,17 @@ PtonFinish(s, tr, st) ==
 
 RECURSIVE Pton6Loop(_, _, _, _)
 Pton6Loop(s, hb, tr, st) ==
-    IF st.ii >= 8 THEN PtonFinish(s, tr, st)
+    IF st.ii >= 8
+    THEN (* the loop ends with all eight groups in: only a netmask may follow.  D17: the original code *)
+         (* went straight to finish (no netmask accepted here, *bits left untouched)                 *)
+         IF ~hb \/ "D17" \in Bug THEN PtonFinish(s, tr, st)
+         ELSE IF Ch(s, st.pos) = Slash /\ IsDigit(Ch(s, st.pos + 1))
+         THEN LET e == SkipDigits(s, st.pos + 1)
+                  v == DecNum(s, st.pos + 1, e)
+              IN  IF e - st.pos - 1 > 9 THEN PtonFail(TRUE)
+                  ELSE IF v > 128 THEN PtonFail(st.ub)
+                  ELSE PtonFinish(s, tr, [st EXCEPT !.pos = e, !.bits = v])
+         ELSE PtonFinish(s, tr, [st EXCEPT !.bits = 128])
     ELSE
     LET c    == Ch(s, st.pos)
         ii   == st.ii
@@ -523,7 +533,7 @@ V6Form(kind, lay, shift, quad, sty) ==
                       !.R = [k \in 1..rn |-> v(i + k)],
                       !.gap = lay.gap, !.q = qv, !.sty = sty]
 
-Families == << "p6", "c6", "s6", "w6", "p4", "c4", "s4", "w4", "w0",
+Families == << "p6", "p4", "c6", "s6", "w6", "c4", "s4", "w4", "w0",
                "xo", "xg", "x2", "xl", "xw", "xc", "xd", "xs", "xm" >>
 
 OctTuple(i, len) == [k \in 1..len |-> OPool[DigitOf(i, 5, len, k - 1) + 1]]
@@ -540,7 +550,7 @@ FamSize(fam) ==
       [] fam = "s6" -> 6 * 5 * 4
       [] fam = "w6" -> 7 * 5 * 3
       [] fam = "p4" -> 625
-      [] fam = "c4" -> 625 * 33
+      [] fam = "c4" -> 81 * 33
       [] fam = "s4" -> (25 + 125) * 3
       [] fam = "w4" -> 5 + 25 + 125
       [] fam = "w0" -> 3
@@ -572,7 +582,7 @@ FormAt(fam, i) ==
            LET len == (i \div 15) + 1
            IN  [Form0 EXCEPT !.k = "w6", !.L = [k \in 1..len |-> GVal(k, (i \div 3) % 5)], !.st = 1, !.sty = i % 3]
       [] fam = "p4" -> [Form0 EXCEPT !.k = "p4", !.q = OctTuple(i, 4)]
-      [] fam = "c4" -> [Form0 EXCEPT !.k = "c4", !.q = OctTuple(i \div 33, 4), !.n = i % 33]
+      [] fam = "c4" -> [Form0 EXCEPT !.k = "c4", !.q = [k \in 1..4 |-> << 0, 127, 255 >>[DigitOf(i \div 33, 3, 4, k - 1) + 1]], !.n = i % 33]
       [] fam = "s4" ->       \* 2 or 3 octets, n in {8 len, 8 len - 1, 1}
            LET j   == i \div 3
                len == IF j < 25 THEN 2 ELSE 3
@@ -652,7 +662,7 @@ FormAt(fam, i) ==
               IN << g(9),                                                               \* 1:2:...:9
                     g(7) \o << Colon >> \o q,                                           \* 1:..:7:127.0.0.1
                     g(8) \o << Colon >> \o q,
-                    g(1) \o << Colon, Colon >> \o Join([k \in 2..8 |-> << 48 + k >>], Colon),      \* 1::2:..:8
+                    g(1) \o << Colon, Colon >> \o Join([k \in 1..7 |-> << 49 + k >>], Colon),      \* 1::2:..:8
                     g(7) \o << Colon, Colon >> \o << 56 >>,                             \* 1:..:7::8
                     g(8) \o << Colon, Colon >>,                                         \* 1:..:8::
                     g(6) \o << Colon, Colon >> \o q,                                    \* 1:..:6::127.0.0.1
